@@ -76,9 +76,9 @@ func storageRouting(inflows, laterals,  rainfall, evap data.ND1Float64,
 		}
 	}
 	qi := 0.0
-	outflow := 0.0
-	storage := 0.0
-	inflow := 0.0
+	outflow := prevOutflow
+	storage := s
+	inflow := prevInflow
 
 	for i := 0; i < n; i++ {
 		idx[0] = i
